@@ -18,4 +18,8 @@ import Mp.ProofsAddr
 #print axioms Mp.dedupPaths_nodup
 #print axioms Mp.addrTop_nodup
 #print axioms Mp.addrTop_nonempty
-#print axioms Mp.addrParts_idents_mem
+#print axioms Mp.addrTop_from
+#print axioms Mp.addrTop_covers
+#print axioms Mp.apParts_idents_mem
+#print axioms Mp.dollar_chains_covered
+#print axioms Mp.filter_condition_chain_covered
